@@ -357,7 +357,7 @@ fn c12_bound(groups: &[(u32, u32, u32)], lim: Option<(u32, u32)>) -> u128 {
             let mut e = g.1 as u128 + 1;
             if let Some((max_char, glyph_count)) = lim {
                 let by_gid = (glyph_count as u128).saturating_sub(g.2 as u128) + g.0 as u128;
-                e = by_gid.min(e.min(max_char as u128));
+                e = by_gid.min(e.min(max_char as u128 + 1));
             }
             e.saturating_sub(g.0 as u128)
         })
@@ -391,8 +391,8 @@ fn cmap12_case(s: &mut Session, groups: &[(u32, u32, u32)], lim: Option<(u32, u3
         // the proved bound: sum of the (limited) group lengths
         s.oracle("iters.cmap12.yield<=sum-of-group-lengths", (sm.n as u128) <= bound, input, || format!("yielded {} bound {bound}", sm.n));
         if let Some((max_char, glyph_count)) = lim {
-            let per = max_char.min(glyph_count) as u128 * groups.len() as u128;
-            s.oracle("iters.cmap12.limits.yield<=groups*min(max_char,glyph_count)", (sm.n as u128) <= per, input, || format!("yielded {} bound {per}", sm.n));
+            let per = (max_char as u128 + 1).min(glyph_count as u128) * groups.len() as u128;
+            s.oracle("iters.cmap12.limits.yield<=groups*min(max_char+1,glyph_count)", (sm.n as u128) <= per, input, || format!("yielded {} bound {per}", sm.n));
             // NOT a property of the code (see report): the repo's tests suggest `<= char::MAX + 1`.
             if sm.n as u128 > max_char as u128 + 1 {
                 s.count("cmap12.FINDING.limits-yield>max_char+1");
